@@ -151,6 +151,9 @@ func (f *Fam) authBy(owner, by string) Auth {
 		return f.W.AuthFor(owner)
 	case "other":
 		return f.W.AuthFor(f.other(owner))
+	case "casevariant":
+		// a different registered client whose id differs only in letter case
+		return f.W.AuthFor(strings.ToLower(owner))
 	case "badsecret":
 		if c := f.W.Mem.Clients[owner]; c != nil && c.IsPublic() {
 			// a public client has no secret to get wrong: present a confidential client id with a wrong secret instead
@@ -457,7 +460,7 @@ func (f *Fam) applyRedeem(op Op) string {
 			f.violate("C01", "C01/replay-not-invalid_grant/by="+op.By+"/got="+o.Err, "replay of a redeemed code by an authenticated client was not answered with invalid_grant", "invalid_grant", o)
 		}
 		f.killFamily(g, "C01")
-	case op.By == "other":
+	case op.By == "other" || op.By == "casevariant":
 		if issued(o) {
 			f.violate("C02", "C02/foreign-client-redeemed-code", "a code was redeemed by a client it was not issued to", "invalid_grant", o)
 			f.recordPair(o, g, false)
@@ -518,7 +521,7 @@ func (f *Fam) applyRefresh(op Op) string {
 		}
 		f.killFamily(g, "C04")
 	case issued(o):
-		if op.By == "other" {
+		if op.By == "other" || op.By == "casevariant" {
 			f.violate("C05", "C05/refresh-honoured-for-foreign-client", "a refresh token was honoured for a client it was not issued to", "refusal", o)
 		}
 		if t.Status != "live" {
@@ -583,10 +586,10 @@ func (f *Fam) applyRevoke(op Op) string {
 			f.violate("C08", "C08/unauthenticated-revocation-accepted", "revocation accepted from a caller that failed client authentication", "invalid_client", o)
 		}
 		unchanged("unauthenticated-caller")
-	case op.By == "other":
+	case op.By == "other" || op.By == "casevariant":
 		if t.Status == "live" && live {
 			if goErr != "unauthorized_client" {
-				f.violate("C08", "C08/foreign-client-not-unauthorized_client/hint="+op.Hint+"/got="+goErr, "revocation of a live token by a different client was not refused as unauthorized_client", "unauthorized_client", o)
+				f.violate("C08", "C08/foreign-client-not-unauthorized_client/by="+op.By+"/hint="+op.Hint+"/got="+goErr, "revocation of a live token by a different client was not refused as unauthorized_client", "unauthorized_client", o)
 			}
 		}
 		unchanged("foreign-client")
